@@ -502,6 +502,16 @@ class Check(common.Check):
             return 'flop ' + ' '.join(T(a) for a in case['cols'])
         if k == 'perform':
             return 'perform ' + ' '.join(T(a) for a in [{'c': case['self']}] + case['args'])
+        if k == 'op':
+            # which function the operator syntax reaches (AbstractSequence / UGen `_compose_binop`):
+            # a ChannelList operand on either side of a non-unit -> utils.list_binop(..., ChannelList);
+            # a unit on the left -> BinaryOpUGen.new -> _multi_new
+            a = case['a']
+            if 'b' not in case:
+                return f"lunop c {T(a)}"
+            if isinstance(a, dict) and 'u' in a:
+                return f"mn {T(a)} {T(case['b'])}"
+            return f"lbinop c {T(a)} {T(case['b'])}"
         return None
 
     def model(self, cases):
@@ -562,6 +572,22 @@ class Check(common.Check):
                 pass
             if got != rest:
                 return {'impl': got, 'model': rest}
+            return None
+        if k == 'op':
+            obs = io['obs']
+            if 'exc' in obs or 'ERR' in m:
+                return None
+
+            def kinds(t):
+                if isinstance(t, list) and len(t) == 2 and t[0] in ('c', 'l', 't') and isinstance(t[1], list):
+                    return t[0] + '[' + ' '.join(kinds(x) for x in t[1]) + ']'
+                return '*'
+            want = re.sub(r'\{[^}]*\}', '*', m)
+            if mo['line'].startswith('mn '):
+                want = re.sub(r'(?<![a-z])\[', 'c[', want)
+            got = kinds(obs['ret'])
+            if got != want:
+                return {'what': 'shape and container types of the operator result', 'impl': got, 'model': want}
             return None
         if io['out'].startswith('EXC:'):
             if 'ERR' in m and io['out'] in ('EXC:IndexError', 'EXC:ZeroDivisionError'):
@@ -763,50 +789,77 @@ class Check(common.Check):
         return h
 
     def shrink(self, case, fails):
-        """shrink list lengths / drop arguments while the same violation persists"""
-        def variants(c):
-            for key in ('args', 'self', 'fixed'):
-                if isinstance(c.get(key), list):
-                    for i, a in enumerate(c[key]):
-                        for a2 in shrink_val(a):
-                            d = json.loads(json.dumps(c))
-                            d[key][i] = a2
-                            yield d
-                    if key != 'fixed' and len(c[key]) > (1 if key == 'self' else 0):
-                        d = json.loads(json.dumps(c))
-                        d[key] = d[key][:-1]
-                        yield d
-            for key in ('a', 'b', 'output'):
-                if key in c:
-                    for a2 in shrink_val(c[key]):
-                        d = json.loads(json.dumps(c))
-                        d[key] = a2
-                        yield d
+        """batched greedy shrinking: all one-step simplifications of the current case are run in ONE
+        implementation process; the first that still violates with the same signature is kept"""
+        def first_leaf(a):
+            while isinstance(a, dict) and any(k in a for k in ('l', 'c', 't')):
+                xs = a.get('l') or a.get('c') or a.get('t') or []
+                if not xs:
+                    return 0
+                a = xs[0]
+            return a
 
         def shrink_val(a):
             if isinstance(a, dict):
                 for k in ('l', 'c', 't'):
                     if k in a:
                         xs = a[k]
+                        yield first_leaf(a)
                         for i in range(len(xs)):
                             if len(xs) > 1:
                                 yield {k: xs[:i] + xs[i + 1:]}
+                        for i in range(len(xs)):
                             for x2 in shrink_val(xs[i]):
                                 yield {k: xs[:i] + [x2] + xs[i + 1:]}
-                        if k != 'c' and len(xs) == 1:
-                            yield xs[0]
-        cur, steps = case, 0
-        progress = True
-        while progress and steps < 60:
-            progress = False
-            for v in variants(cur):
-                steps += 1
-                if steps > 60:
-                    break
-                try:
-                    if fails(v):
-                        cur, progress = v, True
-                        break
-                except Exception:
-                    continue
+            elif isinstance(a, (int, float)) and a not in (0, 1):
+                yield 1
+
+        def variants(c):
+            for key in ('args', 'self', 'fixed'):
+                if isinstance(c.get(key), list):
+                    if key != 'fixed' and len(c[key]) > (1 if key == 'self' else 0):
+                        d = json.loads(json.dumps(c))
+                        d[key] = d[key][:-1]
+                        yield d
+                    for i, a in enumerate(c[key]):
+                        for a2 in shrink_val(a):
+                            d = json.loads(json.dumps(c))
+                            d[key][i] = a2
+                            yield d
+            for key in ('a', 'b', 'output'):
+                if key in c:
+                    for a2 in shrink_val(c[key]):
+                        if key == 'a' and c['k'] == 'op' and not isinstance(a2, dict):
+                            continue
+                        d = json.loads(json.dumps(c))
+                        d[key] = a2
+                        yield d
+
+        def sig_of(c, o):
+            try:
+                v = self.oracle(c, o)
+            except Exception:
+                return None
+            return v.get('signature') if v else None
+        outs = self.impl([case])
+        if not outs:
+            return case
+        want = sig_of(case, outs[0])
+        if want is None:
+            return case
+        cur = case
+        for _ in range(25):
+            cands = list(variants(cur))[:120]
+            if not cands:
+                break
+            try:
+                outs = self.impl(cands)
+            except Exception:
+                break
+            if not outs:
+                break
+            nxt = next((c for c, o in zip(cands, outs) if sig_of(c, o) == want), None)
+            if nxt is None:
+                break
+            cur = nxt
         return cur
